@@ -5,6 +5,7 @@ go 1.26.0
 require (
 	github.com/Query-farm/vgi-rpc-go v0.0.0
 	github.com/apache/arrow-go/v18 v18.6.0
+	github.com/klauspost/compress v1.19.0
 )
 
 require (
@@ -13,7 +14,6 @@ require (
 	github.com/goccy/go-json v0.10.6 // indirect
 	github.com/google/flatbuffers v25.12.19+incompatible // indirect
 	github.com/google/uuid v1.6.0 // indirect
-	github.com/klauspost/compress v1.19.0 // indirect
 	github.com/klauspost/cpuid/v2 v2.4.0 // indirect
 	github.com/pierrec/lz4/v4 v4.1.27 // indirect
 	github.com/zeebo/xxh3 v1.1.0 // indirect
